@@ -92,7 +92,7 @@ func c01Mutations(m *vMsg) []c01Mut {
 		for i, n := range list {
 			p := append(append([]int{}, path...), i)
 			out = append(out, c01Mut{Path: p, Op: "drop"}, c01Mut{Path: p, Op: "dup"}, c01Mut{Path: p, Op: "empty"},
-				c01Mut{Path: p, Op: "trunc", Arg: "1"}, c01Mut{Path: p, Op: "trunc", Arg: "-1"}, c01Mut{Path: p, Op: "pad"})
+				c01Mut{Path: p, Op: "trunc", Arg: "1"}, c01Mut{Path: p, Op: "trunc", Arg: "-1"}, c01Mut{Path: p, Op: "pad"}, c01Mut{Path: p, Op: "pad0"})
 			for _, t := range []string{"0", "19", "57", "60", "65535", "sibling"} {
 				out = append(out, c01Mut{Path: p, Op: "retype", Arg: t})
 			}
@@ -180,6 +180,13 @@ func c01Apply(base *vMsg, mu c01Mut) []byte {
 			n.Kids = append(n.Kids, &vIE{T: 0x7FFF, P: []byte{1, 2, 3}})
 		} else {
 			n.P = append(n.P, 0xFF, 0xFF, 0xFF, 0xFF, 0xFF, 0xFF, 0xFF, 0xFF, 0xFF, 0xFF, 0xFF, 0xFF, 0xFF, 0xFF, 0xFF, 0xFF, 0xFF)
+		}
+	case "pad0":
+		// one trailing NUL: a C-string spelling of a text IE (Application ID, Network Instance), one spare octet elsewhere
+		if n.Grp {
+			n.Kids = append(n.Kids, &vIE{T: 0, P: nil})
+		} else {
+			n.P = append(n.P, 0x00)
 		}
 	case "retype":
 		if mu.Arg == "sibling" {
@@ -447,7 +454,7 @@ func TestVerifC01(t *testing.T) {
 	res := vNewResult()
 	defer res.write(t)
 	res.Rule = "states = BFS (depth 3 quick / 4 thorough) over association, PFD, establishment (basic / CHOOSE+UE-IP), deletion, release on 2 associations, with UE-IP allocation on and off; " +
-		"in every distinct state every single IE-level mutation (drop, duplicate, empty, truncate, pad, retype x6, IPv6-only, flow-description truncations and malformed texts, " +
+		"in every distinct state every single IE-level mutation (drop, duplicate, empty, truncate, pad with 17 x 0xFF, pad with one NUL, retype x6, IPv6-only, flow-description truncations and malformed texts, " +
 		"reversed order, header S flag / length) at every IE position of every nesting level of one rich message per dispatched type (+ response and unsupported types) is injected " +
 		"through the real HandlePFCPMsg (thorough: all pairs of top-level mutations); byte level in a state with a live session: every truncation, 12 byte values per position, all " +
 		"strings of length <= 2. distinct_nontrivial = distinct (state, message, mutation) and byte cases executed"
